@@ -146,6 +146,11 @@ class Algebra:
                 return r_atom("pi")
             if v == math.e:
                 return r_atom("e")
+            # a constant-folded small multiple of pi (`const TWO_PI: f64 = 2. * PI`)
+            for num in range(1, 9):
+                for den in range(1, 9):
+                    if v == num * math.pi / den or v == (num / den) * math.pi:
+                        return r_mul(r_const(Fraction(num, den)), r_atom("pi"))
             if v != v or v in (float("inf"), float("-inf")):
                 raise NotAlgebraic("non-finite constant")
             return r_const(Fraction(repr(v)))
